@@ -75,6 +75,7 @@ type EzPart struct {
 	ID     uint64            `json:"id,omitempty"`
 	Leaves map[string]string `json:"leaves,omitempty"`
 	Broken bool              `json:"broken,omitempty"` // file only: malformed document
+	Empty  string            `json:"empty,omitempty"`  // file only: a well-formed file that holds no settings at all: blank | comments | whitespace
 }
 
 type EzSpec struct {
@@ -199,6 +200,16 @@ func genEz(seed uint64, faulty bool) *Scenario {
 			e.File.Broken = true
 		}
 	}
+	emptied := func(p *EzPart) {
+		// a config file with nothing in it (or every setting commented out)
+		// is a valid file that sets nothing
+		p.Empty = []string{"blank", "comments", "whitespace"}[g.r.IntN(3)]
+		p.Leaves = map[string]string{}
+		p.Broken = false
+	}
+	if g.pct(6) {
+		emptied(&e.File)
+	}
 	e.Linked = e.FileState == "ok" && g.pct(20)
 	if e.Watch || g.pct(30) {
 		n := g.in(0, 4)
@@ -211,6 +222,9 @@ func genEz(seed uint64, faulty bool) *Scenario {
 			}
 			if faulty && g.pct(15) {
 				p.Leaves["ez_forbidden"] = "true"
+			}
+			if g.pct(8) {
+				emptied(&p)
 			}
 			e.Writes = append(e.Writes, p)
 			e.WriteHow = append(e.WriteHow, []string{"rename", "rename", "rewrite", "delete-create"}[g.r.IntN(4)])
@@ -244,6 +258,22 @@ func (p *EzPart) render(format string, kebab ...bool) []byte {
 func (p *EzPart) renderRaw(format string) []byte {
 	if p.Broken {
 		return []byte(map[string]string{"json": `{"ez_a": `, "yaml": "ez_a: [1, 2\n", "toml": "ez_a = = 1\n", "cue": "ez_a: {{{\n"}[format])
+	}
+	if p.Empty != "" {
+		if format == "json" { // the JSON document that sets nothing
+			return []byte(map[string]string{"blank": "{}", "comments": "{\n}\n", "whitespace": " \n{ }\n\n"}[p.Empty])
+		}
+		switch p.Empty {
+		case "comments":
+			c := "#"
+			if format == "cue" {
+				c = "//"
+			}
+			return []byte(c + " sample configuration; uncomment what you need\n" + c + " ez_a: 12\n" + c + " ez_name: \"x\"\n")
+		case "whitespace":
+			return []byte("\n  \n\n")
+		}
+		return []byte{}
 	}
 	keys := make([]string, 0, len(p.Leaves))
 	for k := range p.Leaves {
@@ -376,7 +406,7 @@ func (r *ezRun) expected(file *EzPart) *CfgEz {
 	c := &CfgEz{}
 	applyLeaves(c, &r.e.Defaults)
 	c.Path = r.pathOf("default")
-	if file != nil {
+	if file != nil && file.Empty == "" {
 		c.Stamp = file.ID
 		applyLeaves(c, file)
 	}
@@ -662,6 +692,18 @@ func (r *ezRun) oracles() {
 	e := r.e
 	hasPath := e.PathFrom != "none"
 	r.probes["path-from-"+e.PathFrom]++
+	// a file that sets nothing carries no stamp: in runs that have one, the
+	// full stack over it and the file-less intermediate look alike, and the
+	// clauses that tell them apart by the stamp are off
+	stamped := hasPath && e.File.Empty == ""
+	for i := range e.Writes {
+		if e.Writes[i].Empty != "" {
+			stamped = false
+		}
+	}
+	if hasPath && !stamped {
+		r.probes["config-file-that-sets-nothing"]++
+	}
 	if e.DecoyFrom != "" {
 		r.probes["lower-layer-names-another-file"]++
 	}
@@ -670,13 +712,13 @@ func (r *ezRun) oracles() {
 	// empty one - that no writer wrote; from then on stamp 0 proves nothing)
 	untorn := func(step int) bool { return r.tornAt == 0 || step < r.tornAt }
 	for _, v := range r.verifies {
-		if hasPath && v.stamp == 0 && untorn(v.step) {
+		if stamped && v.stamp == 0 && untorn(v.step) {
 			r.fail("C18.verify-partial", "Verify ran at step %d on a config without the file's contents (stamp 0) although a config file is configured", v.step)
 		}
 	}
 	// (d) neither Events nor the global callbacks expose the intermediate
 	for _, c := range r.events {
-		if hasPath && c.Stamp == 0 && r.tornAt == 0 {
+		if stamped && c.Stamp == 0 && r.tornAt == 0 {
 			r.fail("C18.intermediate-exposed", "Events() delivered a config without the file's contents")
 		}
 	}
@@ -684,7 +726,7 @@ func (r *ezRun) oracles() {
 		if cb.kind != "new" {
 			continue
 		}
-		if hasPath && untorn(cb.enter) && (cb.new.Stamp == 0 || cb.old == nil || cb.old.Stamp == 0) {
+		if stamped && untorn(cb.enter) && (cb.new.Stamp == 0 || cb.old == nil || cb.old.Stamp == 0) {
 			r.fail("C18.intermediate-exposed", "OnNewConfig was called with the file-less intermediate config (old stamp %v, new stamp %d)", cb.old, cb.new.Stamp)
 		}
 		if cb.enter < r.returned && !e.Race {
@@ -764,7 +806,7 @@ func (r *ezRun) oracles() {
 	// the returned config was verified before return
 	verified := false
 	for _, v := range r.verifies {
-		if !v.failed && v.step <= r.returned && v.stamp != 0 {
+		if !v.failed && v.step <= r.returned && (v.stamp != 0 || !stamped) {
 			verified = true
 		}
 	}
